@@ -1410,6 +1410,20 @@ func c12(c *core.Ctx, r *core.Report) {
 							if call, ok := xv.V.(*ssa.Call); ok && isTimeMethod(an.Callee(call), "Duration", "Milliseconds") {
 								return an.FV{V: call.Call.Args[0], F: xv.F}.Resolve(nil).V
 							}
+							// `int64(d / time.Millisecond)`: the same number
+							inner := xv.V
+							for {
+								if cv, isCv := inner.(*ssa.Convert); isCv && isIntType(cv.X.Type()) {
+									inner = an.FV{V: cv.X, F: xv.F}.Resolve(nil).V
+									continue
+								}
+								break
+							}
+							if dq, isQ := inner.(*ssa.BinOp); isQ && dq.Op == token.QUO && isDuration(dq.X.Type()) {
+								if k, isK := foldConst(dq.Y); isK && k == 1000000 {
+									return an.FV{V: dq.X, F: xv.F}.Resolve(nil).V
+								}
+							}
 							return nil
 						}
 						num, den := ms(q.X), ms(q.Y)
